@@ -6,6 +6,8 @@
 //! usage: vh <PROP> --out DIR [--seed S] [--n N] [--tier quick|thorough]
 //!           [--shards K] [--corpus DIR] [--replay FILE]
 mod util;
+mod gal;
+mod c15;
 mod c19;
 mod c20;
 
@@ -112,6 +114,17 @@ fn main() {
             header = c20::HEADER;
             ctype = c20::CTYPE;
             runner = c20::RUNNER;
+        }
+        "C15" => {
+            if args.replay.is_none() {
+                inputs.extend(c15::generate(&mut rng, args.n, args.thorough));
+            }
+            for i in &inputs {
+                w.push(c15::run_input(i));
+            }
+            header = c15::HEADER;
+            ctype = c15::CTYPE;
+            runner = c15::RUNNER;
         }
         "C19" => {
             if args.replay.is_none() {
